@@ -16,7 +16,7 @@ DATA_RS = 'fidget-core/src/vm/data.rs'
 OP_RS = 'fidget-core/src/compiler/op.rs'
 CHOICE_RS = 'fidget-core/src/vm/choice.rs'
 
-PROPS = ['C04', 'C10', 'C11', 'C20']
+PROPS = ['C04', 'C10', 'C11', 'C14', 'C20']   # C14: simplification never renumbers variables (the result keeps the parent's variable map)
 
 
 def split_arms(body):
